@@ -17,6 +17,7 @@ from rules._tags import grouping_of, naming_of
 from rules.c20 import _dedup_site
 from sa.cfg import CFG
 from sa.model import AnalysisError, Function, Repo, calls_in, const_str, dotted, norm, own_nodes, parent
+from sa.match import Locals
 from sa.report import Report
 
 
@@ -57,20 +58,22 @@ def run(repo: Repo, rep: Report, tier: str) -> None:
             rep.ok("R7.1", sub, "no swallowing handler", fn.loc())
 
     # ---------------------------------------------------------------- R7.2 status keys
+    OL = Locals(po.node)
     calls = [c for c in calls_in(po.node) if dotted(c.func) == "parse_response"]
     rep.require(len(calls) >= 1, "R7.2: parse_operations no longer calls parse_response (anchor)")
     for c in calls:
         a0 = c.args[0] if c.args else None
-        sub = f"{po.module.relpath}:parse_operations `{norm(c)[:60]}` status key"
-        key_from_items = isinstance(a0, ast.Name)
+        a0 = OL.inline(a0) if a0 is not None else None
+        sub = f"{po.module.relpath}:parse_operations parse_response(...) status key"
         if isinstance(a0, ast.Call) and dotted(a0.func) == "str":
             rep.ok("R7.2", sub, "the mapping key is converted with str() (a YAML `200:` int key is accepted like '200')", po.loc(c))
         else:
             # is the callee type-strict on that parameter?
             pr = repo.func("core.loader.responses.parser:parse_response")
-            strict = any(isinstance(n, ast.If) and "isinstance(code, str)" in norm(n.test) and any(isinstance(s, ast.Raise) for s in n.body) for n in own_nodes(pr.node))
+            p0 = pr.params[0] if pr.params else "?"
+            strict = any(isinstance(n, ast.If) and f"isinstance({p0}, str)" in norm(n.test) and any(isinstance(s, ast.Raise) for s in n.body) for n in own_nodes(pr.node))
             if strict:
-                rep.violation("R7.2", sub, f"{po.fq}|status-key-not-normalised|{norm(a0) if a0 is not None else ''}",
+                rep.violation("R7.2", sub, f"{po.fq}|status-key-not-normalised",
                               "the raw mapping key is passed to parse_response, which raises TypeError for non-str keys: with unquoted YAML "
                               "status codes every operation is skipped", po.loc(c))
             else:
@@ -80,7 +83,12 @@ def run(repo: Repo, rep: Report, tier: str) -> None:
     _dedup_site(repo.func("emitters.endpoints_emitter:EndpointsEmitter._deduplicate_operation_ids_globally"), "operation methods", "seen_methods", _Relabel(rep, "R7.3"))
     emit = repo.func("emitters.endpoints_emitter:EndpointsEmitter.emit")
     ded = [c for c in calls_in(emit.node) if isinstance(c.func, ast.Attribute) and c.func.attr == "_deduplicate_operation_ids_globally"]
-    group_loops = [n for n in own_nodes(emit.node) if isinstance(n, ast.For) and norm(n.iter) == "operations"]
+    EL = Locals(emit.node)
+
+    def _iterates_tags(n: ast.AST) -> bool:
+        return isinstance(n, ast.For) and any(isinstance(x, ast.Attribute) and x.attr == "tags" for x in ast.walk(EL.inline(n.iter)))
+
+    group_loops = [n for n in own_nodes(emit.node) if isinstance(n, ast.For) and not _iterates_tags(n) and any(_iterates_tags(x) for x in ast.walk(n) if x is not n)]
     if ded and group_loops and ded[0].lineno < group_loops[0].lineno:
         rep.ok("R7.3", f"{emit.module.relpath}:EndpointsEmitter.emit dedup before grouping", "method names are made unique globally before operations are grouped by tag", emit.loc(ded[0]))
     else:
@@ -110,25 +118,38 @@ def run(repo: Repo, rep: Report, tier: str) -> None:
                       f"tag client class/module names are derived differently: emitter {n1}, client visitor {n2}", emit.loc())
 
     # ---------------------------------------------------------------- R7.5 no filter between grouping and emission
-    loops = [n for n in own_nodes(emit.node) if isinstance(n, ast.For) and "tag_key_to_ops" in norm(n.iter)]
-    rep.require(len(loops) == 1, f"R7.5: expected one emission loop over tag_key_to_ops, found {len(loops)}")
+    def _has_call(n: ast.AST, attr: str) -> bool:
+        return any(isinstance(c.func, ast.Attribute) and c.func.attr == attr for c in calls_in(n))
+
+    loops = [n for n in own_nodes(emit.node) if isinstance(n, ast.For) and _has_call(n, "write_file") and _has_call(n, "visit")
+             and not any(isinstance(x, ast.For) and x is not n and _has_call(x, "write_file") for x in ast.walk(n))]
+    rep.require(len(loops) == 1, f"R7.5: expected one emission loop (visit + write_file per tag) in EndpointsEmitter.emit, found {len(loops)}")
     for lp in loops:
         skips = [n for n in ast.walk(lp) if isinstance(n, (ast.Continue, ast.Break))]
-        comps = [n for n in ast.walk(lp) if isinstance(n, ast.ListComp) and "visit(" in norm(n.elt)]
+        # every operation of the tag is visited: comprehension without filter, or an inner loop whose body is unconditional
+        comps = [n for n in ast.walk(lp) if isinstance(n, (ast.ListComp, ast.GeneratorExp)) and any(
+            isinstance(c, ast.Call) and isinstance(c.func, ast.Attribute) and c.func.attr == "visit" for c in ast.walk(n.elt))]
         filt = [c for c in comps if any(g.ifs for g in c.generators)]
-        writes = [c for c in calls_in(lp) if isinstance(c.func, ast.Attribute) and c.func.attr == "write_file"]
-        appends = [c for c in calls_in(lp) if isinstance(c.func, ast.Attribute) and c.func.attr == "append" and "client_classes" in norm(c.func.value)]
+        vloops = [n for n in ast.walk(lp) if isinstance(n, ast.For) and n is not lp and _has_call(n, "visit")]
+        vcond = [x for v in vloops for x in ast.walk(v) if isinstance(x, ast.If)]
+        writes = [st for st in lp.body if _has_call(st, "write_file") and not isinstance(st, (ast.If, ast.For, ast.While, ast.Try))]
+        appends = [st for st in lp.body if isinstance(st, ast.Expr) and _has_call(st, "append")]
         sub = f"{emit.module.relpath}:EndpointsEmitter.emit emission loop"
-        cond_nodes = [n for n in ast.walk(lp) if isinstance(n, ast.If) and not (len(n.body) == 1 and isinstance(n.body[0], ast.Raise))]
-        if not skips and comps and not filt and writes and appends and not cond_nodes:
+        cond_nodes = [n for n in lp.body if isinstance(n, ast.If) and not (len(n.body) == 1 and isinstance(n.body[0], ast.Raise))]
+        if not skips and (comps or vloops) and not filt and not vcond and writes and appends and not cond_nodes:
             rep.ok("R7.5", sub, "every operation of every tag key is visited; each key writes its module and registers its class unconditionally", emit.loc(lp))
         else:
-            rep.violation("R7.5", sub, f"{emit.fq}|emission-filter|skips={len(skips)}|filtered={len(filt)}|cond={len(cond_nodes)}",
+            rep.violation("R7.5", sub, f"{emit.fq}|emission-filter|skips={len(skips)}|filtered={len(filt) + len(vcond)}|cond={len(cond_nodes)}|write={bool(writes)}|register={bool(appends)}",
                           "the emission loop can skip an operation or a tag (continue/break, filtered comprehension or conditional write)", emit.loc(lp))
     # the grouping loop adds every (op, tag) pair
     for gl in group_loops:
         inner = [n for n in ast.walk(gl) if isinstance(n, ast.For) and n is not gl]
-        conds = [n for n in ast.walk(gl) if isinstance(n, (ast.If, ast.Continue))]
+        def _init_only(n: ast.AST) -> bool:
+            """`if k not in d: d[k] = []` - creates the bucket, drops nothing"""
+            return isinstance(n, ast.If) and not n.orelse and isinstance(n.test, ast.Compare) and isinstance(n.test.ops[0], ast.NotIn) and all(
+                isinstance(b, ast.Assign) and isinstance(b.targets[0], ast.Subscript) and isinstance(b.value, (ast.List, ast.Dict, ast.Call)) for b in n.body)
+
+        conds = [n for n in ast.walk(gl) if isinstance(n, (ast.If, ast.Continue, ast.Break)) and not _init_only(n)]
         sub = f"{emit.module.relpath}:EndpointsEmitter.emit grouping loop"
         if inner and not conds:
             rep.ok("R7.5", sub, "every (operation, tag) pair is added without conditions", emit.loc(gl))
@@ -136,7 +157,7 @@ def run(repo: Repo, rep: Report, tier: str) -> None:
             rep.violation("R7.5", sub, f"{emit.fq}|grouping-filter", "the grouping loop drops (operation, tag) pairs conditionally", emit.loc(gl))
     # APIClient: one property per tag tuple, no filter
     impl = repo.func("visit.client_visitor:ClientVisitor._generate_client_implementation")
-    prop_loops = [n for n in own_nodes(impl.node) if isinstance(n, ast.For) and "tag_tuples" in norm(n.iter) and any(
+    prop_loops = [n for n in own_nodes(impl.node) if isinstance(n, ast.For) and any(
         isinstance(c.func, ast.Attribute) and c.func.attr == "write_line" and c.args and "@property" in norm(c.args[0]) for c in calls_in(n))]
     if prop_loops and not any(isinstance(x, (ast.Continue, ast.Break)) for x in ast.walk(prop_loops[0])):
         rep.ok("R7.5", f"{impl.module.relpath}:APIClient tag properties", "one @property per tag tuple, unconditionally", impl.loc(prop_loops[0]))
